@@ -15,7 +15,7 @@ func (c *vCtx) ResolveAndCompile(pathname string, opts py.CompileOpts) (py.Compi
 }
 func (c *vCtx) ModuleInit(impl *py.ModuleImpl) (*py.Module, error) { return nil, vErr }
 func (c *vCtx) RunCode(code *py.Code, globals, locals py.StringDict, closure py.Tuple) (py.Object, error) {
-	return nil, vErr
+	return EvalCode(c, code, globals, locals, nil, nil, nil, nil, closure)
 }
 func (c *vCtx) GetModule(moduleName string) (*py.Module, error) { return nil, vErr }
 func (c *vCtx) Store() *py.ModuleStore                          { return c.store }
